@@ -81,3 +81,24 @@ Theorem C02_executed_model_is_the_real_model : forall (P : prog Q) A A', agg_hom
      mstore Q2R (snd (mtl_backward_model QN P A losses features tasks shared k retain s))).
 Proof. exact mtl_Q_to_R. Qed.
 Print Assumptions C02_executed_model_is_the_real_model.
+
+(* ---- END TO END (added): when the features form a cut between the losses and the shared parameters
+   (D loss p = sum_f D loss f * D f p), the matrix handed to the aggregator IS the true Jacobian of the
+   losses w.r.t. the shared parameters, and mtl_backward updates the shared parameters exactly as
+   backward(losses, A, inputs = shared) would, for ANY aggregator ---- *)
+From TJ.proofs Require Import C05Proofs C15Proofs EndToEndProofs.
+Theorem C02_matrix_is_jacobian : forall (P : prog R) features shared losses,
+  wf_prog P ->
+  (forall l, In l losses -> pnumel P l = 1%nat) ->
+  (forall l p, In l losses -> In p shared -> is_cut P [l] features p) ->
+  mtl_matrix P features shared losses = jacobian P losses shared.
+Proof. exact mtl_matrix_is_jacobian. Qed.
+Print Assumptions C02_matrix_is_jacobian.
+Theorem C02_equals_backward_on_shared : forall (P : prog R) A losses features tasks shared k retain s d' s' kb retainb db sb',
+  wf_prog P -> shared <> [] ->
+  (forall l p, In l losses -> In p shared -> is_cut P [l] features p) ->
+  mtl_backward_model RN P A losses features tasks shared k retain s = (Ok d', s') ->
+  backward_model RN P A losses shared kb retainb s = (Ok db, sb') ->
+  forall p, In p shared -> grad_val s' p = grad_val sb' p.
+Proof. exact mtl_equals_backward_on_shared_same_store. Qed.
+Print Assumptions C02_equals_backward_on_shared.
